@@ -27,8 +27,8 @@ RULE += ("; round 6: several threads asking read-only queries, each of objects o
 RULE += ("; round 7: overlapping groups in swapped order; sliding-window getters with one window in different orders")
 RULE += ("; round 8: two or three objects built from the same string with different phosphosites, asked the same questions in turn; groupings with a moved border")
 RULE += ("; round 9: a fresh 20-residue chain of distinct residues is shuffled 12 times after histories with phosphosites: every position must move at least once")
-RULE += ("; round 11: objects that carried other phosphosites (as many), were asked the phospho-queries and were cleared before their preset sites were set")
 RULE += ("; round 10: user alphabet together with a predefined size followed by plain calls with that size; an object with nine phosphosites asked for the full distribution")
+RULE += ("; round 11: objects that carried other phosphosites (as many), were asked the phospho-queries and were cleared before their preset sites were set")
 EXHAUSTIVE = {"quick": False, "thorough": False}
 ASSUMPTIONS = [
     "the reference is a fork of a process that has imported localcider and made no call (same interpreter, hash seed)",
